@@ -274,6 +274,33 @@ def ws_front_obligations(core, ks):
     return out
 
 
+def ws_backend_obligations(core, cases):
+    """process_batch_response over a pending batch (also part of C03: each entry of a batch is a call that must get the response bearing its own id)"""
+    out = []
+    for n, k in cases:
+        ex, ctx, viol, reach_ok, reach_err, abnormal, panics, rids, s = _ws_case(core, n, k)
+        name = f"ws:process_batch_response:n={n}:replies={k}"
+        common = dict(bodies=sorted(ctx.encoded_bodies), extra={"models": T.CLIENT_DOC + MM.MAP_DOC + LM.LIST_DOC})
+        if abnormal:
+            out.append(R.Result(engine="mirsym", name=name, kind="kernel", status="unsupported", detail=str(abnormal[0])[:300], bodies=common["bodies"]))
+            continue
+        reach = [z3.Or(*reach_ok)] if (reach_ok and k >= 1) else []
+        if reach_err:
+            reach.append(z3.Or(*reach_err))
+        if not reach:
+            reach = [z3.Or(*(reach_ok + reach_err))]
+        args = {"start": s}
+        args.update({f"r{j}": rids[j] for j in range(k)})
+        out.append(R.decide(name + ":positional", "kernel", z3.Or(*viol) if viol else z3.BoolVal(False), reach,
+                            desc=f"a pending batch of {n} answered by {k} responses with ANY u64 ids (duplicates, foreign, missing included): if the call is completed, "
+                                 f"it gets exactly {n} entries and entry i is the response with id start+i or the placeholder error; otherwise it fails as a whole",
+                            bounds=f"batch start any u64 (no overflow), n={n}, {k} reply ids any u64 in any order with min = start and max = start+n-1 (what the caller handle_recv_message passes)",
+                            keydetail="positional", replay=dict(scenario="c12_ws_batch", vars=args, fixed={"n": n, "k": k}, region=z3.And(z3.ULE(s, 1000))), **common))
+        out.append(R.decide(name + ":no-panic", "kernel", z3.Or(*panics) if panics else z3.BoolVal(False), reach,
+                            desc="no overflow / unwrap panic for any ids", bounds="as above", keydetail="panic", **common))
+    return out
+
+
 def obligations(tier, seed):
     core = R.bodies("core")
     out = []
@@ -302,27 +329,7 @@ def obligations(tier, seed):
     # the caller passes range = min(reply ids) .. max(reply ids)+1 and the pending batch is looked up by that range: a reply can only
     # meet a pending batch of n > 1 with at least two (distinct) ids, and one of n = 1 with ids that are all equal
     cases = [(1, 1), (2, 2), (3, 2), (2, 3), (3, 3)] if tier == "quick" else [(n, k) for n in (1, 2, 3, 4) for k in (1, 2, 3, 4, 5) if (n == 1 or k >= 2)]
-    for n, k in cases:
-        ex, ctx, viol, reach_ok, reach_err, abnormal, panics, rids, s = _ws_case(core, n, k)
-        name = f"ws:process_batch_response:n={n}:replies={k}"
-        common = dict(bodies=sorted(ctx.encoded_bodies), extra={"models": T.CLIENT_DOC + MM.MAP_DOC + LM.LIST_DOC})
-        if abnormal:
-            out.append(R.Result(engine="mirsym", name=name, kind="kernel", status="unsupported", detail=str(abnormal[0])[:300], bodies=common["bodies"]))
-            continue
-        reach = [z3.Or(*reach_ok)] if (reach_ok and k >= 1) else []
-        if reach_err:
-            reach.append(z3.Or(*reach_err))
-        if not reach:
-            reach = [z3.Or(*(reach_ok + reach_err))]
-        args = {"start": s}
-        args.update({f"r{j}": rids[j] for j in range(k)})
-        out.append(R.decide(name + ":positional", "kernel", z3.Or(*viol) if viol else z3.BoolVal(False), reach,
-                            desc=f"a pending batch of {n} answered by {k} responses with ANY u64 ids (duplicates, foreign, missing included): if the call is completed, "
-                                 f"it gets exactly {n} entries and entry i is the response with id start+i or the placeholder error; otherwise it fails as a whole",
-                            bounds=f"batch start any u64 (no overflow), n={n}, {k} reply ids any u64 in any order with min = start and max = start+n-1 (what the caller handle_recv_message passes)",
-                            keydetail="positional", replay=dict(scenario="c12_ws_batch", vars=args, fixed={"n": n, "k": k}, region=z3.And(z3.ULE(s, 1000))), **common))
-        out.append(R.decide(name + ":no-panic", "kernel", z3.Or(*panics) if panics else z3.BoolVal(False), reach,
-                            desc="no overflow / unwrap panic for any ids", bounds="as above", keydetail="panic", **common))
+    out += ws_backend_obligations(core, cases)
     out += ws_front_obligations(core, (2, 3) if tier == "quick" else (1, 2, 3, 4))
     # a reply that lacks an entry must not be taken for the reply to another batch in flight: the ids of a batch are not handed out again
     from .C03 import batch_id_obligations
